@@ -518,6 +518,9 @@ func IterBufferRetained(p *load.Program, inPkg func(string) bool) (out []IterRet
 								if fn.Signature.Recv() != nil && len(fn.Params) > 0 && rootOf(a.X) == ssa.Value(fn.Params[0]) {
 									continue
 								}
+								if hasNextMethod(a.X.Type()) { // likewise when the wrapper's constructor pre-fetches
+									continue
+								}
 								out = append(out, IterRetain{fn, u, v, "stored into field " + typeField(a)})
 							case *ssa.IndexAddr:
 								out = append(out, IterRetain{fn, u, v, "stored as an element (append / index assignment)"})
@@ -611,4 +614,14 @@ func NarrowedArgs(fn *ssa.Function, spec string, idx int) (bad []ssa.CallInstruc
 		}
 	}
 	return
+}
+
+func hasNextMethod(t types.Type) bool {
+	ms := types.NewMethodSet(t)
+	for i := 0; i < ms.Len(); i++ {
+		if ms.At(i).Obj().Name() == "Next" {
+			return true
+		}
+	}
+	return false
 }
